@@ -33,7 +33,7 @@ RULE = ("per run one BEC2 file: non-empty ordered subset of {customer-key, ECC(s
 REAL = ["bec2format.bec2file (Bec2File, auth blocks, encryptors)", "bec2format.bf3file", "bec2format.crypto registry",
         "register_crypto_plugin (AES adapter, ECC proxies)", "pyaes", "ecdsa"]
 STUBS = ["medium: SimFS", "RNG: SimRng behind register_random_bytes and os.urandom shims"]
-PROBES = ["runs-with-assertions-disabled", "user-defined-ecc-decryptor", "writer-list-reused-for-reading", "encrypt-only-entry-in-decryptor-list", "same-object-second-recipient",
+PROBES = ["runs-with-assertions-disabled", "encryptor-list-reused-for-second-file", "user-defined-ecc-decryptor", "writer-list-reused-for-reading", "encrypt-only-entry-in-decryptor-list", "same-object-second-recipient",
           "write-after-crashed-attempt", "write-after-failed-attempt", "keystore-arm", "writer-keystore", "session-key-trailing-zero", "crc-low-byte-zero", "crc-high-byte-zero", "key-drawn-from-rng",
           "three-blocks", "subset-leaves-block-opaque", "wrong-key-arm-raised", "wrong-key-arm-returned",
           "encrypted-config", "default-recipient-ecc", "customer-key-present"]
@@ -251,6 +251,31 @@ def run(case):
                 diff = files.compare_read("bec2", w, got, with_key=True)
                 if diff:
                     out.fail("C02.read-differs", "second-recipient-" + diff[0], diff[1], dict(case))
+        # reused-list arm: the caller keeps ONE list object of encryptors and writes a second file (another
+        # security code) with it
+        upd = [b for b in case["blocks"] if b["t"] == "upd"]
+        if upd and case.get("only_subset") is None and case["wrong"] % 2 == 0:
+            nev += 1
+            out.probes["encryptor-list-reused-for-second-file"] += 1
+            code2 = bytes(b ^ 0xA5 for b in bytes.fromhex(upd[0]["code"]))
+            blocks2 = []
+            for b_, blk in zip(case["blocks"], w.obj.auth_blocks.values()):
+                blocks2.append(bf.UpdateAuthBlock(code2, 7) if b_["t"] == "upd" else blk)
+            try:
+                env.install_rng(w.rng)
+                bec2 = bf.Bec2File(w.obj.bf3file, blocks2, bytes(b ^ 0x3C for b in w.key))
+                bec2.write_file("reuse.bec2", w.wenc)          # the same list object as for the first file
+                fs.restart()
+                got = files.read_file("bec2", fs, env, "reuse.bec2", "path", True, None,
+                                      [bf.ConfigSecurityCodeEncryptor(code2)])
+                if got.session_key != bec2.session_key:
+                    raise ValueError("session key differs")
+            except SimCrash:
+                raise
+            except Exception as e:
+                out.fail("C02.read-raises", "reused-list-%s@%s" % (type(e).__name__, exc_site(e)),
+                         "a second file (other security code) written with the same encryptor list object cannot be "
+                         "read with its own code: %s: %s" % (type(e).__name__, e), dict(case))
         # hardware-unit arm: the ECC decryptor is the caller's own subclass of EccEncryptor with a decrypt() of
         # its own (the documented extension point), not the stock test class
         eccd = [(i, b) for i, b in enumerate(case["blocks"]) if b["t"] == "ecc" and i in w.decryptors]
